@@ -69,8 +69,22 @@ def _transformations():
         ('remove_parameter_uncertainty_step', lambda m: pm.remove_parameter_uncertainty_step(m)),
         ('add_effect_compartment', lambda m: pm.add_effect_compartment(m, 'linear')),
         ('transform_blq(m4)', lambda m: pm.transform_blq(m, method='m4', lloq=0.1)),
+        # mostly commuting edits (used in both orders by the 'commute' family)
+        ('add_covariate_effect(CL,WGT,pow)', lambda m: pm.add_covariate_effect(m, 'CL', 'WGT', 'pow')),
+        ('add_covariate_effect(CL,APGR,lin)', lambda m: pm.add_covariate_effect(m, 'CL', 'APGR', 'lin')),
+        ('lower(POP_VC)', lambda m: pm.set_lower_bounds(m, {'POP_VC': 0.01})),
+        ('add_population_parameter(Y)', lambda m: pm.add_population_parameter(m, 'POP_Y', 2.0)),
+        ('fix(IIV_CL)', lambda m: pm.fix_parameters(m, 'IIV_CL')),
+        ('init(IIV_VC)', lambda m: pm.set_initial_estimates(m, {'IIV_VC': 0.05})),
+        ('add_iov', lambda m: pm.add_iov(m, 'FA1', ['CL'])),
+        ('add_estimation_step(IMP)', lambda m: pm.add_estimation_step(m, 'IMP')),
+        ('add_individual_parameter', lambda m: pm.add_individual_parameter(m, 'MAT')),
+        ('set_evaluation_step', lambda m: pm.set_evaluation_step(m)),
     ]
     return T
+
+
+COMMUTING_FROM = 17      # index of the first "mostly commuting" transformation (fix/init/bounds/...)
 
 
 def _sha(s):
@@ -87,6 +101,12 @@ def _facts(model, ModelHash):
     k = ModelHash(model)
     out['key'] = str(k)
     out['dataset_hash'] = str(k.dataset_hash)
+    try:
+        from pharmpy.workflows import ModelEntry
+        out['key_via_entry'] = str(ModelHash(ModelEntry.create(model)))
+        out['key_via_hash'] = str(ModelHash(k))
+    except Exception as e:
+        out['key_via_entry'] = f'ERR:{type(e).__name__}'
     out['dict_sha'] = _sha(js)
     try:
         out['code_sha'] = _sha(model.code)
@@ -180,7 +200,14 @@ def node_main(args):
             rec['history'] = log
             rec['A'] = _facts(A, ModelHash)
             if family == 'commute':
-                i1, i2 = tape.draw(len(T), 'commute.1'), tape.draw(len(T), 'commute.2')
+                if tape.draw(2, 'commute.kind'):
+                    pool = [j for j in range(len(T)) if j >= COMMUTING_FROM and
+                            not T[j][0].startswith(('set_iiv_on_ruv', 'set_power', 'add_effect', 'transform_blq',
+                                                    'add_allometry'))]
+                    i1 = pool[tape.draw(len(pool), 'commute.1')]
+                    i2 = pool[tape.draw(len(pool), 'commute.2')]
+                else:
+                    i1, i2 = tape.draw(len(T), 'commute.1'), tape.draw(len(T), 'commute.2')
                 l1, l2 = [], []
                 X = _apply(A, T, [i1, i2], l1)
                 Y = _apply(A, T, [i2, i1], l2)
@@ -342,6 +369,15 @@ def compare(batch, nodes_out, hashseeds):
                                  f'is not retrievable by key in the node with {hashseeds[ni]}: '
                                  f'{b["retrieved"]}', a['index']))
         fa = a.get('A', {})
+        for side in ('A', 'X', 'Y'):
+            f = a.get(side)
+            if isinstance(f, dict) and (f.get('key_via_entry', f.get('key')) != f.get('key') or
+                                        f.get('key_via_hash', f.get('key')) != f.get('key')):
+                viol.append(('C12/key-depends-on-how-it-is-asked',
+                             f'model {a["index"]}: ModelHash(model)={f.get("key")[:10]} but via ModelEntry '
+                             f'{str(f.get("key_via_entry"))[:10]} / via ModelHash {str(f.get("key_via_hash"))[:10]}',
+                             a['index']))
+                break
         # by-products (the pure round-trip clauses of C12 are not claimed): counted only
         if fa.get('from_dict_eq') is not True:
             stats['byproduct_from_dict_not_equal'] = stats.get('byproduct_from_dict_not_equal', 0) + 1
